@@ -148,7 +148,11 @@ impl Monitor for NoEffectMonitor {
         }
         Ok(())
     }
-    fn quiescent(&mut self, sess: &mut Session, _rng: &mut Rng, _gen: &Gen, rep: &mut Report, done: &mut Vec<Step>) -> Result<(), Fail> {
+    fn quiescent(&mut self, sess: &mut Session, rng: &mut Rng, _gen: &Gen, rep: &mut Report, done: &mut Vec<Step>) -> Result<(), Fail> {
+        if sess.open_slots().is_empty() && rng.chance(1, 25) {
+            refusals_on_a_stale_handle_episode(sess, rng, rep)?;
+            self.refusals += 1;
+        }
         // "every subsequently observable result is the same as if the call had not been
         // made": the model never saw the refused calls, so the dump must still match it.
         if sess.open_slots().is_empty() {
@@ -170,6 +174,109 @@ impl Monitor for NoEffectMonitor {
             Ok(())
         }
     }
+}
+
+/// Two handles opened on a scratch stream at the same moment; a third one resizes the stream
+/// and goes away.  One of the two then makes out-of-range seeks, the other (the control)
+/// does not.  "As if the call had not been made": the store is untouched by the refused
+/// seeks, and afterwards both handles answer the same questions the same way.
+fn refusals_on_a_stale_handle_episode(sess: &mut Session, rng: &mut Rng, rep: &mut Report) -> Result<(), Fail> {
+    use std::io::{Read, Seek, Write};
+    let io = |what: &str| {
+        let w = what.to_string();
+        move |e: std::io::Error| ("harness-or-C01: stale-handle refusals episode".to_string(), format!("{w}: {e}"))
+    };
+    let len0 = *rng.pick(&[100u64, 1000, 3000, 5000]);
+    let delta = *rng.pick(&[1u64, 50, 700, 5000]);
+    let grow = rng.chance(2, 3);
+    let len1 = if grow { len0 + delta } else { len0.saturating_sub(delta.min(len0 / 2)) };
+    let warm = rng.chance(1, 2);
+    let cf = sess.cf();
+    {
+        let mut s = cf.create_stream("/q2").map_err(io("create_stream"))?;
+        s.write_all(&crate::engine::payload(79, len0 as usize)).map_err(io("write"))?;
+        s.flush().map_err(io("flush"))?;
+    }
+    let mut a = cf.open_stream("/q2").map_err(io("open A"))?;
+    let mut c = cf.open_stream("/q2").map_err(io("open control"))?;
+    if warm {
+        let mut buf = [0u8; 40];
+        a.read_exact(&mut buf).map_err(io("read A"))?;
+        c.read_exact(&mut buf).map_err(io("read control"))?;
+    }
+    {
+        let mut b = cf.open_stream("/q2").map_err(io("open B"))?;
+        if grow && rng.chance(1, 2) {
+            b.seek(SeekFrom::End(0)).map_err(io("seek B"))?;
+            b.write_all(&vec![0xB7u8; delta as usize]).map_err(io("write B"))?;
+        } else {
+            b.set_len(len1).map_err(io("set_len B"))?;
+        }
+        b.flush().map_err(io("flush B"))?;
+    }
+    let before = sess.shared.bytes();
+    let writes_before = sess.shared.writes();
+    // (the position is known from what was read; asking for it would be a seek, and a seek
+    // is the call under observation)
+    let (la, pa) = (a.len(), if warm { 40u64 } else { 0 });
+    let mut refused = 0;
+    let mut len_moved: Option<(SeekFrom, u64)> = None;
+    // (targets that are out of range for every length the stream has had come first)
+    for from in [SeekFrom::End(1), SeekFrom::Current(-(pa as i64) - 1), SeekFrom::Start(la + delta + 7), SeekFrom::Start(la + 1), SeekFrom::End(-(la as i64) - 1)] {
+        if len_moved.is_some() {
+            break;
+        }
+        let r = a.seek(from);
+        if std::env::var_os("CFBMON_TRACE").is_some() {
+            eprintln!("stale episode: len0={len0} len1={len1} warm={warm} la={la} pa={pa} {:?} -> {:?}", from, r);
+        }
+        match r {
+            Err(e) if e.kind() == std::io::ErrorKind::InvalidInput => {
+                refused += 1;
+                if a.len() != la {
+                    len_moved = Some((from, a.len()));
+                }
+            }
+            _ => {
+                // not a refusal (or another kind of failure): nothing to judge here
+                rep.count("stale_handle_seeks_not_refused");
+                drop(a);
+                drop(c);
+                sess.cf().remove_stream("/q2").map_err(io("remove_stream"))?;
+                return Ok(());
+            }
+        }
+    }
+    let mut res = Ok(());
+    let what = format!("/q2: {len0} bytes, handles A and control opened{}, a third handle made it {len1} bytes and went away, A then made {refused} refused seeks", if warm { " and 40 bytes read through each" } else { "" });
+    if sess.shared.writes() != writes_before || sess.shared.bytes() != before {
+        res = Err(("refused seek | refuse:out_of_range+stale_handle | bytes changed".to_string(), what.clone()));
+    } else if let Some((from, now)) = len_moved {
+        res = Err(("refused seek | refuse:out_of_range+stale_handle | handle state changed".to_string(), format!("{what}: len() was {la}, after the refused {from:?} it is {now}")));
+    } else if (a.len(), a.stream_position().ok()) != (la, Some(pa)) {
+        res = Err(("refused seek | refuse:out_of_range+stale_handle | handle state changed".to_string(), format!("{what}: len()/position were ({la}, {pa}), now ({}, {:?})", a.len(), a.stream_position().ok())));
+    } else {
+        // the same questions to both handles
+        let mut ask = |h: &mut cfb::Stream<crate::backend::MonFile>| -> (u64, Option<u64>, Option<u64>, Option<(usize, u64)>, u64) {
+            let l = h.len();
+            let p = h.stream_position().ok();
+            let e = h.seek(SeekFrom::End(0)).ok();
+            let mut v = Vec::new();
+            let r = h.seek(SeekFrom::Start(0)).and_then(|_| h.read_to_end(&mut v)).ok().map(|n| (n, crate::rng::fnv64(&v)));
+            (l, p, e, r, h.len())
+        };
+        let oa = ask(&mut a);
+        let oc = ask(&mut c);
+        if oa != oc {
+            res = Err(("refused seek | refuse:out_of_range+stale_handle | later results differ from a handle that did not make the call".to_string(), format!("{what}; (len, position, seek(End(0)), read_to_end from 0 (count, hash), len) through A: {:?}, through the control: {:?}", oa, oc)));
+        }
+    }
+    drop(a);
+    drop(c);
+    sess.cf().remove_stream("/q2").map_err(io("remove_stream"))?;
+    rep.count("stale_handle_refusal_episodes");
+    rep.add("refusals_checked", refused);
+    res
 }
 
 fn probe_expect(sess: &Session, op: &Op) -> Expect {
